@@ -415,7 +415,7 @@ theorem build_ok {env : Env} {s s' : St} {e : Entry} {fp : Path}
     | some x => simp [hpe] at e1
     | none =>
       simp [hpe] at e1
-      have a1 := SoloAt.alloc hwf fp ⟨.sym t, 0o777, env.uid, env.gid, 0⟩
+      have a1 := SoloAt.alloc hwf fp ⟨.sym t, 0o777, env.uid, newGid env s.fs fp, 0⟩
       rw [e1] at a1
       obtain ⟨b1, b2, b3⟩ := perms_ok (e := ⟨loc, .sym t, mode, uid, gid, mtime⟩) hnd a1 (by simp [Entry.inode]) (by simp) hp
       refine ⟨b1, ?_, (Traj.step_ok h1 base0 a1.offEq).trans b3, rfl⟩
@@ -430,7 +430,7 @@ theorem build_ok {env : Env} {s s' : St} {e : Entry} {fp : Path}
     | some x => simp [hpe] at e1
     | none =>
       simp [hpe] at e1
-      have a1 := SoloAt.alloc hwf fp ⟨.fifo, maskMode 0o666 env.umask, env.uid, env.gid, 0⟩
+      have a1 := SoloAt.alloc hwf fp ⟨.fifo, maskMode 0o666 env.umask, env.uid, newGid env s.fs fp, 0⟩
       rw [e1] at a1
       obtain ⟨b1, b2, b3⟩ := perms_ok (e := ⟨loc, .fifo, mode, uid, gid, mtime⟩) hnd a1 (by simp [Entry.inode]) (by simp [Entry.isSym]) hp
       refine ⟨b1, ?_, (Traj.step_ok h1 base0 a1.offEq).trans b3, rfl⟩
@@ -447,7 +447,7 @@ theorem build_ok {env : Env} {s s' : St} {e : Entry} {fp : Path}
       | some x => simp [hpe] at e1
       | none =>
         simp [hpe] at e1
-        have a1 := SoloAt.alloc hwf fp ⟨.file "", maskMode 0o666 env.umask, env.uid, env.gid, 0⟩
+        have a1 := SoloAt.alloc hwf fp ⟨.file "", maskMode 0o666 env.umask, env.uid, newGid env s.fs fp, 0⟩
         rw [e1] at a1
         obtain ⟨b1, b2, b3⟩ := perms_ok (e := ⟨loc, .reg "" key, mode, uid, gid, mtime⟩) hnd a1 (by simp [Entry.inode]) (by simp [Entry.isSym]) hp
         refine ⟨b1, ?_, (Traj.step_ok h1 base0 a1.offEq).trans b3, rfl⟩
@@ -462,7 +462,7 @@ theorem build_ok {env : Env} {s s' : St} {e : Entry} {fp : Path}
       | some x => simp [hpe] at e1
       | none =>
         simp [hpe] at e1
-        have a1 := SoloAt.alloc hwf fp ⟨.file "", maskMode 0o666 env.umask, env.uid, env.gid, 0⟩
+        have a1 := SoloAt.alloc hwf fp ⟨.file "", maskMode 0o666 env.umask, env.uid, newGid env s.fs fp, 0⟩
         rw [e1] at a1
         have e2 := (St.sys_ok h2).1
         simp only [step, a1.here] at e2
@@ -893,14 +893,14 @@ theorem ensureDirsWalk_ok {env : Env} {l : List Path} {s s' : St} {b : Bool} (h 
               cases hx : s.fs.view a with
               | none => rfl
               | some v => simp [hx] at hv
-            have hs1 : ∀ q, s1.fs.view q = if q = a then some (s.fs.next, ⟨.dir, 0o750, env.uid, env.gid, 0⟩) else s.fs.view q := by
+            have hs1 : ∀ q, s1.fs.view q = if q = a then some (s.fs.next, ⟨.dir, newDirMode s.fs a (0o750 &&& 0o1777), env.uid, newGid env s.fs a, 0⟩) else s.fs.view q := by
               intro q; rw [← e1]; simp
             have p1 : EnsP s.fs (a :: rest) s1.fs := by
               intro q
               rw [hs1 q]
               by_cases hq : q = a
               · subst hq
-                exact Or.inr ⟨hva, List.mem_cons_self, s.fs.next, ⟨.dir, 0o750, env.uid, env.gid, 0⟩, by simp, rfl, Nat.le_refl _⟩
+                exact Or.inr ⟨hva, List.mem_cons_self, s.fs.next, ⟨.dir, newDirMode s.fs q (0o750 &&& 0o1777), env.uid, newGid env s.fs q, 0⟩, by simp, rfl, Nat.le_refl _⟩
               · simp [hq]
             refine (Traj.step_ok hsys base0 p1).trans ((ih h).mono ?_)
             have hn1 : s.fs.next ≤ s1.fs.next := by rw [← e1]; simp
@@ -913,6 +913,72 @@ theorem ensureDirsWalk_ok {env : Env} {l : List Path} {s s' : St} {b : Bool} (h 
               · exact Or.inr ⟨h1, List.mem_cons_of_mem _ h2, j, nd, h3, h4, Nat.le_trans hn1 h5⟩
 
 /-! ## 5d. `copyfile` -/
+
+/-- the `resets` step of `ensure_dirs`: re-applying the mode to the directory it has just made keeps `EnsP` -/
+theorem ensP_chmod {env : Env} {base f : Fs} {l : List Path} {p : Path} {m : Nat} (hwf : base.WF1)
+    (hp : base.view p = none) (h : EnsP base l f) : EnsP base l (applyOp env f (.chmod p m)) := by
+  unfold applyOp
+  cases hs : step env f (.chmod p m) with
+  | error e => exact h
+  | ok f' =>
+    simp only [step] at hs
+    cases hv : f.view p with
+    | none => simp [hv] at hs
+    | some v =>
+      obtain ⟨i, nd⟩ := v
+      have hi : base.next ≤ i := by
+        rcases h p with h1 | ⟨_, _, j, nd', h3, _, h5⟩
+        · rw [hv, hp] at h1; cases h1
+        · rw [hv] at h3; cases h3; exact h5
+      simp only [hv] at hs
+      split at hs
+      · cases hs
+      · injection hs with hs
+        subst hs
+        intro q
+        cases hq : f.view q with
+        | none =>
+          rw [view_updIno_of_ne_ino (by intro j nd' hj; rw [hq] at hj; cases hj)]
+          rw [hq]; have := h q; rwa [hq] at this
+        | some w =>
+          obtain ⟨j, ndq⟩ := w
+          by_cases hji : j = i
+          · subst hji
+            rcases h q with h1 | ⟨h1, h2, j', nd', h3, h4, h5⟩
+            · rw [hq] at h1
+              exact absurd (hwf q j ndq h1.symm) (by omega)
+            · rw [hq] at h3; cases h3
+              refine Or.inr ⟨h1, h2, j, { ndq with mode := m }, ?_, h4, h5⟩
+              rw [Fs.view_updIno, hq]; simp
+          · rw [view_updIno_of_ne_ino (by intro j' nd' hj; rw [hq] at hj; cases hj; exact hji)]
+            have := h q; rwa [hq] at this ⊢
+
+theorem ensureDirs_ok {env : Env} {p : Path} {s s' : St} {b : Bool} (hwf : s.fs.WF1)
+    (h : ensureDirs env s p = (s', b)) : Traj env (EnsP s.fs (ancestorsIncl p)) s s' := by
+  unfold ensureDirs at h
+  generalize hw : ensureDirsWalk env s (ancestorsIncl p) = r at h
+  obtain ⟨s1, b1⟩ := r
+  have t1 := ensureDirsWalk_ok hw
+  cases b1 with
+  | false =>
+    simp only [Prod.mk.injEq] at h
+    obtain ⟨rfl, -⟩ := h
+    exact t1
+  | true =>
+    simp only at h
+    split at h
+    · next hc =>
+      have t2 := Traj.sys (env := env) (P := EnsP s.fs (ancestorsIncl p)) (s := s1) (.chmod p 0o750) t1.final
+        (ensP_chmod hwf hc.1 t1.final)
+      have hs' : s' = (s1.sys env (.chmod p 0o750)).1 := by
+        generalize s1.sys env (.chmod p 0o750) = r at h
+        obtain ⟨s2, e⟩ := r
+        cases e <;> (simp only [Prod.mk.injEq] at h; exact h.1.symm)
+      rw [hs']
+      exact t1.trans t2
+    · simp only [Prod.mk.injEq] at h
+      obtain ⟨rfl, -⟩ := h
+      exact t1
 
 /-- what a crash may observe while a non-directory entry `x` is being merged from state `base` -/
 def NonDirP (base : Fs) (x : Entry) (f : Fs) : Prop :=
@@ -1049,7 +1115,7 @@ theorem copyfile_ok {env : Env} {s s' : St} {x : Entry} (hnd : x.isDir = false) 
       · simp only [Prod.mk.injEq] at hr
         obtain ⟨rfl, -⟩ := hr
         exact Traj.refl (fun q => Or.inl rfl)
-      · exact ensureDirsWalk_ok hr
+      · exact ensureDirs_ok hwf.lt hr
     cases okDirs with
     | false => simp at h
     | true =>
@@ -1448,7 +1514,7 @@ theorem mergeDir_ok {env : Env} {s s' : St} {x : Entry} (hd : x.isDir = true) (h
               cases hx : s.fs.view x.loc with
               | none => rfl
               | some v => simp [hx] at hvx
-            have a1 := SoloAt.alloc hwf.lt x.loc ⟨.dir, mkdirMode env x, env.uid, env.gid, 0⟩
+            have a1 := SoloAt.alloc hwf.lt x.loc ⟨.dir, newDirMode s.fs x.loc ((mkdirMode env x) &&& 0o1777), env.uid, newGid env s.fs x.loc, 0⟩
             rw [e1] at a1
             obtain ⟨b1, b2⟩ := dirPerms2_ok hd a1 rfl rfl h
             have pmid : ∀ f, OffEqDir s.fs x.loc f → DirP s.fs x f := by
@@ -1506,7 +1572,7 @@ theorem mergeDir_ok {env : Env} {s s' : St} {x : Entry} (hd : x.isDir = true) (h
             have f3 := (St.sys_ok h3).1
             simp only [step, hpe2, hv2 x.loc, if_true] at f3
             have wf2 : s2.fs.WF := by rw [← f2]; exact WF_del hwf _
-            have a3 := SoloAt.alloc wf2.lt x.loc ⟨.dir, mkdirMode env x, env.uid, env.gid, 0⟩
+            have a3 := SoloAt.alloc wf2.lt x.loc ⟨.dir, newDirMode s2.fs x.loc ((mkdirMode env x) &&& 0o1777), env.uid, newGid env s2.fs x.loc, 0⟩
             simp only [Option.isSome_none, Bool.false_eq_true, if_false] at f3
             injection f3 with f3
             rw [f3] at a3
@@ -2233,7 +2299,7 @@ theorem merge_main {env : Env} {off : Bool} {pre : Fs} {es : List Entry} {s' : S
         have e1 := (St.sys_ok h1).1
         simp only [step, if_true, hv0, Option.isSome_none, Bool.false_eq_true, if_false] at e1
         injection e1 with e1
-        have hv1 : ∀ q, s1.fs.view q = if q = [] then some (pre.next, ⟨.dir, maskMode 0o777 env.umask, env.uid, env.gid, 0⟩)
+        have hv1 : ∀ q, s1.fs.view q = if q = [] then some (pre.next, ⟨.dir, newDirMode pre [] ((maskMode 0o777 env.umask) &&& 0o1777), env.uid, newGid env pre [], 0⟩)
             else pre.view q := by
           intro q; rw [← e1]; simp
         have hmp : MissingParent pre es [] := by
